@@ -65,6 +65,11 @@ class _Obj(object):
         self.store.reads.append(self.key)
         return {'Body': _Body(self.store.data[self.key][0])}
 
+    def delete(self):
+        if self.key in self.store.data:
+            self.store.mutate(('delete', self.key))
+            del self.store.data[self.key]
+
 
 class _Coll(object):
     def __init__(self, store, prefix):
@@ -80,13 +85,23 @@ class _Coll(object):
             self.store.mutate(('delete', k))
             del self.store.data[k]
 
+    # the resource collections walk every page whatever the page size is
+    def page_size(self, count):
+        return self
+
+    def all(self):
+        return self
+
 
 class _Objects(object):
     def __init__(self, store):
         self.store = store
 
-    def filter(self, Prefix=None):
+    def filter(self, Prefix=None, **kw):
         return _Coll(self.store, Prefix)
+
+    def all(self):
+        return _Coll(self.store, '')
 
 
 class Store(object):
@@ -138,8 +153,31 @@ def reset():
 
 class _Bucket(object):
     def __init__(self, name):
+        self.name = name
         self.store = store(name)
         self.objects = _Objects(self.store)
+
+    # additive: other resource-level ways of deleting / reaching objects
+    def delete_objects(self, Delete, **kw):
+        return _Client().delete_objects(Bucket=self.name, Delete=Delete, **kw)
+
+    def Object(self, key):
+        return _ObjectResource(self.name, key)
+
+
+class _ObjectResource(object):
+    def __init__(self, bucket, key):
+        self.bucket_name = bucket
+        self.key = key
+
+    def delete(self, **kw):
+        return _Client().delete_object(Bucket=self.bucket_name, Key=self.key)
+
+    def put(self, Body, **kw):
+        return _Client().put_object(Bucket=self.bucket_name, Key=self.key, Body=Body, **kw)
+
+    def get(self, **kw):
+        return _Client().get_object(Bucket=self.bucket_name, Key=self.key)
 
 
 class _Resource(object):
@@ -147,7 +185,163 @@ class _Resource(object):
         return _Bucket(name)
 
 
+# Listing page size of the fake CLIENT API.  S3 promises "at most MaxKeys (<= 1000)" keys per listing response and may
+# return FEWER with IsTruncated=true, so a caller has to follow the continuation token whatever the page size is: the
+# fake is adversarial and answers SMALL pages, which makes un-paginated code visible on short histories.
+PAGE_SIZE = 3
+# delete_objects accepts at most this many keys per request (S3: 1000 -> MalformedXML)
+DELETE_BATCH_MAX = 1000
+
+
+class ClientError(Exception):
+    """stands in for botocore.exceptions.ClientError (bad continuation token, oversized delete batch)."""
+    def __init__(self, code, message=''):
+        Exception.__init__(self, "%s: %s" % (code, message))
+        self.response = {'Error': {'Code': code, 'Message': message}}
+
+
+def _etag(body):
+    import hashlib
+    return '"%s"' % hashlib.md5(body).hexdigest()
+
+
+class _Paginator(object):
+    """client.get_paginator('list_objects_v2' | 'list_objects').paginate(...): follows the continuation for the caller"""
+    def __init__(self, client, operation_name):
+        if operation_name not in ('list_objects_v2', 'list_objects'):
+            raise ValueError('no paginator for ' + operation_name)
+        self.client = client
+        self.operation_name = operation_name
+
+    def paginate(self, **kw):
+        kw.pop('PaginationConfig', None)
+        while True:
+            page = getattr(self.client, self.operation_name)(**kw)
+            yield page
+            if not page['IsTruncated']:
+                return
+            if self.operation_name == 'list_objects_v2':
+                kw['ContinuationToken'] = page['NextContinuationToken']
+            else:
+                kw['Marker'] = page.get('NextMarker') or page['Contents'][-1]['Key']
+
+
 class _Client(object):
+    # ---- listing / deletion through the client API (additive: the unchanged facade uses the resource collections) ----
+    def _page(self, Bucket, Prefix, Delimiter, MaxKeys, after):
+        """one listing page in key order (like S3): the keys that start with Prefix and come after the marker `after`;
+        with a Delimiter the keys that contain it after the prefix are rolled up into one CommonPrefixes entry (which
+        counts as one entry of the page and, when last on the page, is the marker of the next one).
+        Returns (contents, common prefixes, truncated?, marker of the last entry)."""
+        st = store(Bucket)
+        prefix = Prefix or ''
+        st.lists.append(prefix)
+        size = PAGE_SIZE if MaxKeys is None else max(0, min(int(MaxKeys), PAGE_SIZE))
+
+        def roll(k):
+            if Delimiter:
+                i = k.find(Delimiter, len(prefix))
+                if i >= 0:
+                    return k[:i + len(Delimiter)]
+            return None
+
+        entries = []                      # (marker, key or None for a common prefix), key order
+        for k in sorted(st.data):
+            if not k.startswith(prefix):
+                continue
+            r = roll(k)
+            if after is not None and (k <= after or (r is not None and r == after)):
+                continue
+            if r is None:
+                entries.append((k, k))
+            elif not entries or entries[-1] != (r, None):
+                entries.append((r, None))
+        contents, commons = [], []
+        for marker, k in entries[:size]:
+            if k is None:
+                commons.append(marker)
+            else:
+                body, modified, storage_class = st.data[k]
+                contents.append({'Key': k, 'LastModified': modified, 'Size': len(body), 'ETag': _etag(body),
+                                 'StorageClass': storage_class or 'STANDARD'})
+        truncated = size > 0 and len(entries) > size
+        last = entries[:size][-1][0] if entries[:size] else after
+        return contents, commons, truncated, last
+
+    def list_objects_v2(self, Bucket, Prefix='', Delimiter=None, MaxKeys=None, ContinuationToken=None, StartAfter=None,
+                        **kw):
+        after = StartAfter
+        if ContinuationToken is not None:
+            if not (isinstance(ContinuationToken, str) and ContinuationToken.startswith('tok:')):
+                raise ClientError('InvalidArgument', 'The continuation token provided is incorrect')
+            after = ContinuationToken[4:]
+        contents, commons, truncated, last = self._page(Bucket, Prefix, Delimiter, MaxKeys, after)
+        out = {'Name': Bucket, 'Prefix': Prefix or '', 'MaxKeys': 1000 if MaxKeys is None else MaxKeys,
+               'KeyCount': len(contents) + len(commons), 'IsTruncated': truncated,
+               'ResponseMetadata': {'HTTPStatusCode': 200}}
+        if contents:                      # like S3: no 'Contents' entry at all for an empty page
+            out['Contents'] = contents
+        if commons:
+            out['CommonPrefixes'] = [{'Prefix': p} for p in commons]
+        if Delimiter:
+            out['Delimiter'] = Delimiter
+        if ContinuationToken is not None:
+            out['ContinuationToken'] = ContinuationToken
+        if StartAfter is not None:
+            out['StartAfter'] = StartAfter
+        if truncated:
+            out['NextContinuationToken'] = 'tok:' + last
+        return out
+
+    def list_objects(self, Bucket, Prefix='', Delimiter=None, MaxKeys=None, Marker=None, **kw):
+        contents, commons, truncated, last = self._page(Bucket, Prefix, Delimiter, MaxKeys, Marker or None)
+        out = {'Name': Bucket, 'Prefix': Prefix or '', 'Marker': Marker or '', 'MaxKeys': 1000 if MaxKeys is None else MaxKeys,
+               'IsTruncated': truncated, 'ResponseMetadata': {'HTTPStatusCode': 200}}
+        if contents:
+            out['Contents'] = contents
+        if commons:
+            out['CommonPrefixes'] = [{'Prefix': p} for p in commons]
+        if Delimiter:
+            out['Delimiter'] = Delimiter
+            if truncated:                 # like S3: NextMarker only with a delimiter, otherwise the last key is the marker
+                out['NextMarker'] = last
+        return out
+
+    def delete_object(self, Bucket, Key, **kw):
+        st = store(Bucket)
+        if Key in st.data:                # deleting a missing key is a successful no-op on S3
+            st.mutate(('delete', Key))
+            del st.data[Key]
+        return {'ResponseMetadata': {'HTTPStatusCode': 204}}
+
+    def delete_objects(self, Bucket, Delete, **kw):
+        objects = list(Delete.get('Objects', []))
+        if not objects or len(objects) > DELETE_BATCH_MAX:
+            raise ClientError('MalformedXML', 'delete_objects takes 1..%d keys per request' % DELETE_BATCH_MAX)
+        st = store(Bucket)
+        deleted = []
+        for o in objects:
+            k = o['Key']
+            if k in st.data:
+                st.mutate(('delete', k))
+                del st.data[k]
+            deleted.append({'Key': k})
+        out = {'ResponseMetadata': {'HTTPStatusCode': 200}}
+        if not Delete.get('Quiet'):
+            out['Deleted'] = deleted
+        return out
+
+    def head_object(self, Bucket, Key, **kw):
+        st = store(Bucket)
+        if Key not in st.data:
+            raise ClientError('404', 'Not Found')
+        body, modified, storage_class = st.data[Key]
+        return {'ContentLength': len(body), 'LastModified': modified, 'ETag': _etag(body),
+                'StorageClass': storage_class or 'STANDARD', 'ResponseMetadata': {'HTTPStatusCode': 200}}
+
+    def get_paginator(self, operation_name):
+        return _Paginator(self, operation_name)
+
     def put_object(self, Bucket, Key, Body, **kw):
         st = store(Bucket)
         b = Body.encode('utf-8') if isinstance(Body, str) else bytes(Body)
